@@ -21,6 +21,8 @@ WORKER_TIMEOUT = {"quick": 600, "thorough": 3600}
 
 CODE_LIKE = list("+-*/%=<>!&|^~;,(){}[]#:.? ") + list("abcxyz0123456789_") + ["if", "while", "int", "return", "for",
                                                                                 "else", "char", "NULL", "sizeof"]
+# alternative spellings of punctuators are ordinary text inside a comment or a literal (never ??/, a backslash in disguise)
+ALT_SPELLINGS = ["<:", ":>", "<%", "%>", "%:", "??(", "??)", "??<", "??>", "??=", "??'", "??!", "??-"]
 
 
 def plan(tier, seed):
@@ -29,26 +31,44 @@ def plan(tier, seed):
     return [{"mode": "pairs", "seed": seed, "shard": i, "n": 30 if q else 260} for i in range(n)]
 
 
-def fill(r, width, banned, other_quote):
+def fill(r, width, banned, other_quote, mode="mixed", allow_alt=True):
     out = ""
-    alphabet = [a for a in CODE_LIKE + [other_quote] if not any(b in a for b in banned)]
+    alphabet = [a for a in CODE_LIKE + (ALT_SPELLINGS if allow_alt else []) + [other_quote] if not any(b in a for b in banned)]
+    if mode == "alt_spellings" and not allow_alt:
+        mode = "punctuation"
+    if mode == "no_blank":
+        alphabet = [a for a in alphabet if " " not in a]
+    elif mode == "punctuation":
+        alphabet = [a for a in alphabet if not a[0].isalnum() and a != " "]
+    elif mode == "alt_spellings":
+        alphabet = [a for a in ALT_SPELLINGS if not any(b in a for b in banned)] + ["a", " "]
     while len(out) < width:
         a = r.choice(alphabet)
         if len(out) + len(a) > width:
             a = a[:width - len(out)]
         if out.endswith("?") and a.startswith("?"):
             continue
+        if not allow_alt and any(x in (out[-2:] + a) for x in ALT_SPELLINGS):
+            continue        # two single characters must not form a digraph by accident either
         out += a
     return out
 
 
-def mutate(p, r):
+def mutate(p, r, mode="mixed", alt_everywhere=False):
     """-> (new prog, number of bodies changed)"""
     q = p.copy()
     changed = 0
+    state = {"alt": True}
+
+    def fill(r, width, banned, other_quote, _f=globals()["fill"]):
+        return _f(r, width, banned, other_quote, mode, state["alt"])
     for l in q.lines:
         if l.kind == "hdr":
             continue
+        # known finding F-58: in a comment the lexer replaces digraphs/trigraphs, so they count for one column in
+        # the comment-width rule; alternative spellings are kept out of comment lines near the limit (the dedicated
+        # probe below exercises exactly that)
+        state["alt"] = alt_everywhere or not (l.width_max() >= 74 and any(c.startswith("comment") for _, c in l.segs))
         for j, (t, c) in enumerate(l.segs):
             if r.random() < 0.3:
                 continue
@@ -89,12 +109,41 @@ def mutate(p, r):
     return q, changed
 
 
+def long_comment_programs(spec, r):
+    """files whose comment lines sit around the 80-column limit (78..84), at file level, at the end of a code
+    line, inside a block comment and inside a function body: the width limit must not look at the text either"""
+    from nv.gen.ir import Line, Prog, IND, SP, TAB
+    from nv.gen import conf
+    for k in range(max(2, spec["n"] // 6)):
+        g = conf.Gen("c17long/%s/%d/%d" % (spec["seed"], spec["shard"], k))
+        lines = g.header_lines("test.c") + [Line("blank", [])]
+        w = r.randint(78, 84)
+        words = lambda n: ("word " * 40)[:n]
+        lines.append(Line("comment", [("// " + words(w - 3), "comment:line")]))
+        lines.append(Line("blank", []))
+        lines.append(Line("comment", [("/* " + words(w - 6) + " */", "comment:block")]))
+        lines.append(Line("blank", []))
+        lines.append(Line("comment", [("/*\n** " + words(r.randint(75, 82)) + "\n** " + words(10) + "\n*/", "comment:multi")]))
+        lines.append(Line("blank", []))
+        gl = [("static int", "kw"), TAB(1), ("g_v", "id:global"), SP, ("=", "op:assign"), SP, ("0", "const:int"), (";", "punct"), SP]
+        lines.append(Line("global", gl + [("// " + words(r.randint(55, 62)), "comment:line")]))
+        lines.append(Line("blank", []))
+        fl, _, _ = g.function(0, body_lines=3)
+        lines += fl
+        # a long comment inside the body (reported as a scope error as well; both runs see the same)
+        idx = len(lines) - 1
+        lines.insert(idx, Line("comment", [IND(1), ("/* " + words(r.randint(70, 78)) + " */", "comment:block")], 1, 0))
+        p = Prog("test.c", lines)
+        yield p, "longcomment:c"
+
+
 def run_shard(spec):
     sh = Shard(max_per_sig=3)
     r = random.Random("c17/%s/%d" % (spec["seed"], spec["shard"]))
-    for p, tag in relwork.corpus(spec, nvar=3, force=("V57", "V58", "V59")):
-        for rep in range(2):
-            q, changed = mutate(p, r)
+    import itertools
+    for p, tag in itertools.chain(relwork.corpus(spec, nvar=3, force=("V57", "V58", "V59")), long_comment_programs(spec, r)):
+        for rep, mode in enumerate(["mixed", r.choice(["no_blank", "punctuation", "alt_spellings"])]):
+            q, changed = mutate(p, r, mode)
             if not changed:
                 sh.count("c17.no_site")
                 break
@@ -109,6 +158,20 @@ def run_shard(spec):
                 sh.violation("obs_differs", (tag.split(":")[1],) + relwork.sig_of_diff(d),
                              {"mode": "pair", "name": p.name, "a": p.text(), "b": q.text()}, d)
             sh.sample({"original_line": _first_diff(p.text(), q.text())[0], "replaced_line": _first_diff(p.text(), q.text())[1]}, cap=2)
+    # probe of F-58: alternative spellings inside comment lines near the width limit
+    for p, tag in long_comment_programs(dict(spec, n=6), r):
+        q, changed = mutate(p, r, "alt_spellings", alt_everywhere=True)
+        a, _ = relwork.obs_of(p.name, p.text())
+        b, _ = relwork.obs_of(q.name, q.text())
+        sh.case("f58\0" + p.text() + "\0" + q.text())
+        sh.count("c17.alt_spelling_probe")
+        if a != b:
+            d = relwork.diff(a, b)
+            codes = sorted(set(x[0] for x in d.get("only_a", []) + d.get("only_b", [])))
+            d["codes"] = codes
+            d["only_width_rule_and_its_position_side_effect"] = set(codes) <= {"LINE_TOO_LONG", "WRONG_SCOPE_COMMENT"}
+            sh.violation("alt_spelling_in_long_comment", tuple(codes), {"mode": "pair", "name": p.name, "a": p.text(), "b": q.text(),
+                                                                      "probe": "f58"}, d)
     return sh.result()
 
 
@@ -124,7 +187,14 @@ def replay(case, sh):
     b, _ = relwork.obs_of(case["name"], case["b"])
     sh.evaluations += 1
     if a != b:
-        sh.violation("obs_differs", ("replay",), case, relwork.diff(a, b))
+        d = relwork.diff(a, b)
+        if case.get("probe") == "f58":
+            codes = sorted(set(x[0] for x in d.get("only_a", []) + d.get("only_b", [])))
+            d["codes"] = codes
+            d["only_width_rule_and_its_position_side_effect"] = set(codes) <= {"LINE_TOO_LONG", "WRONG_SCOPE_COMMENT"}
+            sh.violation("alt_spelling_in_long_comment", tuple(codes), case, d)
+        else:
+            sh.violation("obs_differs", ("replay",), case, d)
 
 
 def finish(merged, tier, seed):
